@@ -108,6 +108,20 @@ func c02Small(c *mc.Ctx) {
 			}
 		}
 	}
+	// the same table through a sorter that sorted another table before (the reingest / doctor path)
+	for _, rs := range c02runSizes {
+		k := &ingestCfg{cols: cols, pk: pk, rows: rows, runSize: rs, workers: 1, delim: ',', reuse: true}
+		s, err := sumOf(k)
+		n++
+		if err != nil {
+			c.Fail("error", "ingest through a reused sorter failed: %v; %s", err, k.describe())
+			return
+		}
+		if !bytes.Equal(s, baseSum) {
+			c.Fail("config-dependent", "same logical table, different identifiers: %x with a fresh sorter vs %x with a sorter that sorted another table before and was Reset (%s)", baseSum, s, k.describe())
+			return
+		}
+	}
 	c.Count("ingests", int64(n))
 	// neighbours: any single change of a cell, a column name, the column order or the key changes the identifier
 	differ := func(what string, k *ingestCfg) {
@@ -281,7 +295,7 @@ func init() {
 	register(&mc.Check{
 		ID:    "C02",
 		Level: "exploration",
-		Rule: "every logical table with unique keys over 1..3 columns, cells {'',a,b}, every ordered key subset incl. none, up to 3 rows (2 for 3 columns; one more in thorough), enumerated canonically; for each: all row permutations x run sizes {none, every row, ~2 rows} x workers 1..3 x delimiters {, | tab ;}, each into a fresh store, must give one identifier; " +
+		Rule: "every logical table with unique keys over 1..3 columns, cells {'',a,b}, every ordered key subset incl. none, up to 3 rows (2 for 3 columns; one more in thorough), enumerated canonically; for each: all row permutations x run sizes {none, every row, ~2 rows} x workers 1..3 x delimiters {, | tab ;}, each into a fresh store, and through a sorter that sorted another table before and was Reset, must give one identifier; " +
 			"every single-cell change, column rename, column-name swap and key change must give a different one; across the whole family the map identifier -> logical table must be injective (cross-worker merge). " +
 			"multi-block: 300/511/766-row tables x 3 file orders x 4 run sizes x 1..3 workers. cli: `wrgl commit --set-file` then a second commit of permuted / changed data with --mem-limit and -n variants must report unchanged / changed. " +
 			"non-trivial = table of >= 2 rows; distinct by canonical table",
